@@ -1901,9 +1901,14 @@ func (r *Raft) becomeLeader() {
 // becomeFollower transitions this node to the follower state.
 func (r *Raft) becomeFollower(leaderID string, term uint64) {
 	r.state = Follower
+
+	// The vote may only be reset when the term increases. Otherwise, a vote that was
+	// already cast in this term could be forgotten and cast again for another candidate.
+	if term > r.currentTerm {
+		r.votedFor = ""
+	}
 	r.currentTerm = term
 	r.leaderID = leaderID
-	r.votedFor = ""
 	r.persistTermAndVote()
 	r.resetSnapshotFiles()
 
